@@ -1,7 +1,7 @@
 SPECIFICATION Spec
 CONSTANTS
   PKinds = {"slice8", "strs", "st", "opt", "prim"}
-  RKinds = {"unit", "hold", "result", "write", "reshold", "out"}
+  RKinds = {"unit", "hold", "result", "write", "reshold", "out", "box", "optbox", "ref"}
   MaxParams = 2
-INVARIANTS NoEarlyFree BorrowedOutlivesResult CallScopedGoneAtReturn NoLeak GcHasOwner
+INVARIANTS OpaqueOnce NoEarlyFree BorrowedOutlivesResult CallScopedGoneAtReturn NoLeak GcHasOwner
 CHECK_DEADLOCK TRUE
